@@ -268,3 +268,22 @@ func ruleGSum(c *Ctx) {
 		c.Check(over == s.over && elem == s.elem, "G-sum", "Tx."+s.name, fn.Pos(), "sum of "+elem+" over all of "+over, fmt.Sprintf("Tx.%s sums %s over %s, expected %s over %s", s.name, elem, over, s.elem, s.over))
 	}
 }
+
+// canonTerm renders a term with the operands of commutative operators (+, *) sorted, so that
+// comparisons are insensitive to operand order. Call ordinals are removed.
+func canonTerm(t *T) string {
+	if t.K == "bin" && (t.Op == token.ADD || t.Op == token.MUL) {
+		a, b := canonTerm(t.Args[0]), canonTerm(t.Args[1])
+		if b < a {
+			a, b = b, a
+		}
+		return "(" + a + " " + t.Op.String() + " " + b + ")"
+	}
+	if t.K == "bin" {
+		return "(" + canonTerm(t.Args[0]) + " " + t.Op.String() + " " + canonTerm(t.Args[1]) + ")"
+	}
+	if t.K == "conv" && len(t.Args) == 1 {
+		return t.Name + "(" + canonTerm(t.Args[0]) + ")"
+	}
+	return atomName(t)
+}
